@@ -37,14 +37,15 @@ fn run(len: usize) {
             if with_admin { Some(actors[0].to_string()) } else { None },
         )
         .unwrap();
-    // who may act: 0..2 = external accounts, 3 = the contract k2 (through a sub-message)
-    let who_addr = |i: usize| -> Addr { if i < 3 { actors[i].clone() } else { k2.clone() } };
+    // who may act: 0..2 = external accounts, 3 = the contract k2 (through a sub-message), 4 = the
+    // administered contract c ITSELF (a sub-message it emits when a stranger calls it; seed C12c)
+    let who_addr = |i: usize| -> Addr { if i < 3 { actors[i].clone() } else if i == 3 { k2.clone() } else { c.clone() } };
     let mut admin: Option<Addr> = if with_admin { Some(actors[0].clone()) } else { None };
     let mut code_now = code1;
     for step in 0..len {
         let op = [OpK::UpdateAdmin, OpK::ClearAdmin, OpK::Migrate][choose(3)];
-        let who = choose(4);
-        let target = [1usize, 3, 0][choose(3)]; // new admin: newadmin / the contract k2 / the original admin
+        let who = choose(5);
+        let target = [1usize, 3, 0, 4][choose(4)]; // new admin: newadmin / the contract k2 / the original admin / c itself
         let new_code = if code_now == code1 { code2 } else { code1 };
         let msg: CosmosMsg = match op {
             OpK::UpdateAdmin => WasmMsg::UpdateAdmin { contract_addr: c.to_string(), admin: who_addr(target).to_string() }.into(),
@@ -58,8 +59,9 @@ fn run(len: usize) {
             if who < 3 {
                 app.execute(actors[who].clone(), msg.clone())
             } else {
-                // the contract k2 dispatches the message: the sender is k2, nobody else
-                app.execute_contract(actors[2].clone(), k2.clone(), &Script::new().sub(msg.clone(), ReplyOn::Never, 1, None), &[])
+                // the contract (k2, or c itself) dispatches the message: it is the sender, nobody else
+                let via = if who == 3 { k2.clone() } else { c.clone() };
+                app.execute_contract(actors[2].clone(), via, &Script::new().sub(msg.clone(), ReplyOn::Never, 1, None), &[])
             }
         });
         let r = match r {
